@@ -693,6 +693,7 @@ func (x *Exec) verifyFunc(fn *ssa.Function, ct *Contract) {
 		}
 		p.assume(s)
 	}
+	x.obls = append(x.obls, &Oblig{Name: ct.Func + "/canary", Func: ct.Func, Props: ct.Props, Ctx: append([]string(nil), p.ctx...), Goal: "false", Kind: "canary"})
 	// frame
 	for _, as := range ct.Assigns {
 		x.addFrame(&fc.frame, env, as.E)
